@@ -27,6 +27,9 @@ theorem OnlyRaises.bind {α β : Type} {x : FM α} {f : α → FM β} (hx : Only
     exact hx _ rfl
   | ok a => exact hf a e h
 
+theorem OnlyRaises.err {α : Type} {x : FM α} (h : OnlyRaises x) {e : FitErr} (he : x = .error e) :
+    e = .raises := h e he
+
 attribute [irreducible] OnlyRaises
 
 /-- peels a `do` block: binds, `pure`, `throw .raises`, `if`/`match`, and facts in the context -/
@@ -224,5 +227,80 @@ theorem fitStep_or (S : Schema) (st : FitState) : OnlyRaises (fitStep S st) := b
   have h3 := openMore_or
   have h4 := dropNode_or
   unfold fitStep; only_raises
+
+/-! ### after the loop: `must_move_inline`, `close` -/
+
+theorem closeInner_or (S : Schema) (rt : RPos) (fr : List FItem) : ∀ n, OnlyRaises (closeInner S rt fr n)
+  | 0 => by unfold closeInner; only_raises
+  | n + 1 => by
+    have ih := closeInner_or S rt fr n
+    have h1 := getItem_or
+    have h2 := contentAfterFits_or S
+    unfold closeInner; only_raises
+
+theorem closeMove_or (doc : Node) (rt : RPos) (i : Nat) (b : Bool) : OnlyRaises (closeMove doc rt i b) := by
+  have h2 := @liftRaise_or
+  unfold closeMove; only_raises
+
+theorem findCloseLevelLoop_or (S : Schema) (doc : Node) (rt : RPos) (fr : List FItem) :
+    ∀ n, OnlyRaises (findCloseLevelLoop S doc rt fr n)
+  | 0 => by unfold findCloseLevelLoop; only_raises
+  | n + 1 => by
+    have ih := findCloseLevelLoop_or S doc rt fr n
+    have h1 := getItem_or
+    have h2 := contentAfterFits_or S
+    have h3 := closeInner_or S
+    have h4 := closeMove_or
+    unfold findCloseLevelLoop; only_raises
+
+theorem findCloseLevel_or (S : Schema) (doc : Node) (rt : RPos) (fr : List FItem) :
+    OnlyRaises (findCloseLevel S doc rt fr) := findCloseLevelLoop_or S doc rt fr _
+
+theorem moveBlocked_or (S : Schema) (doc : Node) (rt : RPos) (fr : List FItem) :
+    OnlyRaises (moveBlocked S doc rt fr) := by
+  have h1 := findCloseLevel_or S
+  unfold moveBlocked; only_raises
+
+theorem mustMoveInline_or (S : Schema) (doc : Node) (rt : RPos) (fr : List FItem) :
+    OnlyRaises (mustMoveInline S doc rt fr) := by
+  have h1 := getItem_or
+  have h2 := contentAfterFits_or S
+  have h3 := moveBlocked_or S
+  have h4 := @liftRaise_or
+  unfold mustMoveInline; only_raises
+
+theorem reopen_or (S : Schema) (mv : RPos) : ∀ (n d : Nat) (fr : List FItem) (placed : List Node),
+    OnlyRaises (reopen S mv n d fr placed)
+  | 0, d, fr, placed => by unfold reopen; only_raises
+  | n + 1, d, fr, placed => by
+    have ih := reopen_or S mv n
+    have h1 := fillOpt_or S
+    have h2 := openFrontierNode_or S
+    unfold reopen; only_raises
+
+theorem closeFit_or (S : Schema) (doc : Node) (rt : RPos) (fr : List FItem) (placed : List Node) :
+    OnlyRaises (closeFit S doc rt fr placed) := by
+  have h1 := findCloseLevel_or S
+  have h2 := closeMany_or S
+  have h3 := addToFragment_or
+  have h4 := reopen_or S
+  unfold closeFit; only_raises
+
+theorem closeTarget_or (doc : Node) (rt : RPos) (mi : Option Nat) : OnlyRaises (closeTarget doc rt mi) := by
+  have h2 := @liftRaise_or
+  unfold closeTarget; only_raises
+
+theorem mapM_or {α β : Type} (f : α → FM β) (hf : ∀ a, OnlyRaises (f a)) : ∀ l : List α, OnlyRaises (l.mapM f)
+  | [] => by simp only [List.mapM_nil]; exact OnlyRaises.pure _
+  | a :: l => by
+    have ih := mapM_or f hf l
+    simp only [List.mapM_cons]
+    only_raises
+
+theorem fitInit_or (S : Schema) (rf : RPos) (sl : Slice) : OnlyRaises (fitInit S rf sl) := by
+  unfold fitInit
+  refine OnlyRaises.bind (mapM_or _ (fun i => ?_) _) (fun _ => OnlyRaises.pure _)
+  have h2 := @liftRaise_or
+  only_raises
 
 end PM
